@@ -26,6 +26,8 @@ def stopping_plan(prop, ctx, with_t3=False, with_x=True):
         if with_t3:
             P.append(sweep.universe_shards(prop, "U-T3", j, rewards="all01", stopping_only=True, frac=16, seed=ctx.seed))
     P.append(sweep.family_shards(prop, "U-D", j))
+    if with_t3:
+        P.append(sweep.family_shards(prop, "U-M2", 1000))        # C06 only
     P.append(sweep.family_shards(prop, "U-E", j))
     P.append(sweep.family_shards(prop, "U-L", j))
     P.append(sweep.family_shards(prop, "U-K", j))
